@@ -2,6 +2,7 @@ import BigtoolsModel.SummaryFold
 import BigtoolsModel.BedSummary
 import BigtoolsModel.SweepProof
 import BigtoolsModel.SweepStats
+import BigtoolsModel.AtomsGen
 /-! # C06 — whole-file summary statistics equal the statistics of the written data
 
 Property theorems (statements copied from the lemma modules, proofs by those lemmas). -/
@@ -90,3 +91,18 @@ theorem C06_bed_total_summary_over_all_chromosomes (c : List SW.Seg) (cs : List 
   mergeAll_ofSegs c cs
 
 end BSUM
+
+namespace Sweep
+
+/-- **The code's own summary sweep** (`add_interval_to_summary` in bigbedwrite.rs `process_val`): increment-and-split, tail rule
+    and flush loop assembled from the tests regenerated from the source are the model's `bump`, `tailZoom` (the rule the
+    repaired summary sweep shares with the zoom sweep) and `flush`; a partly flushed piece has length `next_start − start`
+    and zero-length pieces are skipped; a bigWig value contributes `end − start` bases. -/
+theorem C06_source_summary_sweep_is_the_models (itemStart itemEnd nextStart fuel s len e : Nat) (l : List Seg) :
+    bumpGen false itemEnd l = bump itemEnd l ∧ tailGen false itemStart itemEnd l = tailZoom itemStart itemEnd l ∧
+    flushGen false nextStart fuel l = flush nextStart fuel l ∧
+    Gen.bs_part_len nextStart s = nextStart - s ∧ Gen.bs_skip len = decide (len = 0) ∧ Gen.wig_len e s = e - s :=
+  ⟨gen_bump false itemEnd l, gen_tail false itemStart itemEnd l, gen_flush false nextStart fuel l,
+   (gen_summary_piece nextStart s len).1, (gen_summary_piece nextStart s len).2, SectionCut.gen_wig_len e s⟩
+
+end Sweep
